@@ -767,7 +767,7 @@ package kapacitor
 // getCreateFn(kind) answers for THIS kind whatever was asked before: the constructor for
 // (method, kind), or an error when the aggregation is not defined on that kind.
 //@ func (*InfluxQLNode).getCreateFn
-//@   props C11
+//@   props C06 C11
 //@   requires n != nil && n.n != nil && cfnOK(n)
 //@   modifies n.currentKind, n.createFn
 //@   ensures [cache-consistent] cfnOK(n)
@@ -1532,3 +1532,33 @@ package kapacitor
 //@   guardcall Query#1: n.query.startTL.Val == now - time.Time(n.b.Offset) - time.Time(n.b.Period) && n.query.stopTL.Val == now - time.Time(n.b.Offset)
 //@   loop 1
 //@     invariant liveQueryOK(n) && con != nil && n.batchesQueried != nil && n.pointsQueried != nil
+
+// ---------------------------------------------------------------- task_master.go: newFork (C02)
+// "it is never delivered to a task that did not declare the pair": the fork table maps every
+// (db, rp, measurement) key to its own set of subscribed tasks. newFork subscribes the task under
+// exactly its keys; the sets of different keys stay different objects (a set shared by two keys
+// would subscribe a later task of one key to the other key as well), and the other tasks'
+// subscriptions do not change.
+//@ spec forkSetsOwn(tm *TaskMaster) bool = tm.forks != nil
+//@     && (forall k forkKey :: has(tm.forks, k) ==> tm.forks[k] != nil)
+//@     && (forall k1 forkKey, k2 forkKey :: has(tm.forks, k1) && has(tm.forks, k2) && k1 != k2 ==> tm.forks[k1] != tm.forks[k2])
+//@ func (Diagnostic).WithEdgeContext
+//@   trusted
+//@   modifies nothing
+//@ func newEdge
+//@   trusted
+//@   modifies nothing
+//@   ensures result != nil
+//@ func forkKeys
+//@   trusted
+//@   modifies nothing
+//@ func (*TaskMaster).newFork
+//@   props C02
+//@   requires tm != nil && tm.diag != nil && tm.taskToForkKeys != nil && forkSetsOwn(tm)
+//@   ensures [sets-stay-separate] forkSetsOwn(tm)
+//@   ensures [others-untouched] forall k forkKey, n string :: n != taskName && old(has(tm.forks, k)) ==> has(tm.forks, k) && has(tm.forks[k], n) == old(has(tm.forks[k], n))
+//@   loop 1
+//@     invariant tm != nil && tm.taskToForkKeys != nil && forkSetsOwn(tm) && e != nil
+//@     invariant forall k forkKey :: before(has(tm.forks, k)) ==> has(tm.forks, k) && tm.forks[k] == before(tm.forks[k])
+//@     invariant forall k forkKey :: has(tm.forks, k) && !before(has(tm.forks, k)) ==> newinloop(tm.forks[k])
+//@     invariant forall k forkKey, n string :: n != taskName && before(has(tm.forks, k)) ==> has(tm.forks[k], n) == before(has(tm.forks[k], n))
